@@ -306,8 +306,10 @@ __CPROVER_requires(__CPROVER_is_fresh(connp, sizeof(*connp)) && __CPROVER_is_fre
 __CPROVER_requires(g_c11_ex != NULL && C11_GHOST_HDR(g_c11_ex) && g_c11_newlen <= C11_VALCAP && (g_c11_have_ex == 0 || g_c11_have_ex == 1))
 __CPROVER_requires((g_c11_parse_rc == HTP_OK || g_c11_parse_rc == HTP_ERROR) && (g_c11_add_rc == HTP_OK || g_c11_add_rc == HTP_ERROR))
 __CPROVER_requires(g_c11_free_name == 0 && g_c11_free_value == 0 && g_c11_add_n == 0 && g_c11_exp_n == 0 && g_c11_addmem_n == 0 && g_c11_addb_n == 0 && g_c11_h == NULL)
-#ifdef C11_DBG_REQ2
-__CPROVER_requires(C11_DBG_REQ2)
+/* case split (the union of the three cases blows up the propositional encoding, each case takes seconds): the units enumerate
+ * C11_PRODUCER_CASE = first occurrence | repeated Content-Length | repeated other name; together they cover every input */
+#ifdef C11_PRODUCER_CASE
+__CPROVER_requires(C11_PRODUCER_CASE)
 #endif
 /* C10: the repetition counter is within its cap on entry (it is 0 in a new transaction and only this function moves it) */
 __CPROVER_requires(connp->in_tx->req_header_repetitions <= HTP_MAX_HEADERS_REPETITIONS)
